@@ -229,6 +229,40 @@ func runDecCase(k DecCase) (verdict string) {
 				return fmt.Sprintf("String() after String()+shift = %q, but CoEx says %vd%d", s, co, ex)
 			}
 			_ = d2.String()
+			// comparing a value with one derived from it (the two may share storage)
+			rd, ok := relRat(co, int64(ex), base)
+			if !ok || rd == nil {
+				continue
+			}
+			want := ra.Cmp(rd)
+			if got := a.Cmp(d2); got != want {
+				return fmt.Sprintf("Cmp with the derived value %s returned %d, exact comparison %d", show(d2), got, want)
+			}
+			if got := a.Equal(d2); got != (want == 0) {
+				return fmt.Sprintf("Equal with the derived value %s returned %v, exact comparison %d", show(d2), got, want)
+			}
+			if got := d2.Equal(a); got != (want == 0) {
+				return fmt.Sprintf("derived value %s Equal the original returned %v, exact comparison %d", show(d2), got, want)
+			}
+		}
+		// two decimals built around one big.Int of the caller
+		if !k.A.NegZero && int64(k.A.Exp) > math.MinInt32+10 {
+			n := new(big.Int).Set(k.A.Coef)
+			d1, d2 := ion.NewDecimal(n, k.A.Exp, false), ion.NewDecimal(n, k.A.Exp-3, false)
+			want := 0
+			if k.A.Coef.Sign() != 0 {
+				want = k.A.Coef.Sign() // same digits, larger exponent: larger magnitude
+			}
+			if got := d1.Cmp(d2); got != want {
+				return fmt.Sprintf("Cmp of %s and %s (one coefficient object) returned %d, exact %d", show(d1), show(d2), got, want)
+			}
+			if got := d1.Equal(d2); got != (want == 0) {
+				return fmt.Sprintf("Equal of %s and %s (one coefficient object) returned %v, exact comparison %d", show(d1), show(d2), got, want)
+			}
+			cp := *d1
+			if !cp.Equal(d1) || !d1.Equal(&cp) || cp.Cmp(d1) != 0 {
+				return fmt.Sprintf("a copy of %s is not Equal to it", show(d1))
+			}
 		}
 	case "Parse":
 		// k.Note holds a literal produced by the reference printer denoting k.A
@@ -349,6 +383,11 @@ func runC14(c *Ctx) {
 				}
 				decCheck(c, DecCase{Op: "String", A: model.Dec{Coef: co, Exp: int32(-sc)}}, true)
 				decCheck(c, DecCase{Op: "FormatShiftFormat", A: model.Dec{Coef: co, Exp: int32(-sc)}, Arg: nd % 7}, true)
+			}
+			if nd <= 7 {
+				// zero is zero at every exponent, negative zero included
+				decCheck(c, DecCase{Op: "FormatShiftFormat", A: model.Dec{Coef: new(big.Int), Exp: int32(-sc)}, Arg: nd}, true)
+				decCheck(c, DecCase{Op: "FormatShiftFormat", A: model.Dec{Coef: new(big.Int), Exp: int32(-sc), NegZero: true}, Arg: nd}, true)
 			}
 		}
 	}
